@@ -4,7 +4,10 @@ import (
 	"encoding/binary"
 	"encoding/hex"
 	"fmt"
+	"runtime"
+	"strings"
 	"testing"
+	"time"
 
 	"pgregory.net/rapid"
 	"verifharness/codec"
@@ -164,7 +167,62 @@ func genCase(rt *rapid.T) Case {
 	return c
 }
 
+// runMut runs the barrage under a watchdog: a delivering goroutine that never
+// comes back (a leaked lock inside the stack) is a violation too, not a hang
+// of the check. The longest legitimate duration is the probes' deadlines
+// (3 x 3 x 1.5 s); a timeout is confirmed by a second run before it counts.
 func runMut(c Case) *evid.Failure {
+	for attempt := 0; ; attempt++ {
+		done := make(chan *evid.Failure, 1)
+		go func() { done <- evid.Guard(func() *evid.Failure { return runMutOnce(c) }) }()
+		select {
+		case f := <-done:
+			return f
+		case <-time.After(45 * time.Second):
+			if attempt == 0 {
+				continue
+			}
+			buf := make([]byte, 1<<20)
+			n := runtime.Stack(buf, true)
+			return evid.Failf("liveness:wedged", "the barrage or the liveness probes did not return within 45 s (twice): a goroutine delivering a frame is blocked inside the stack\n%s", wedgedIn(string(buf[:n])))
+		}
+	}
+}
+
+// guarded runs fn (injections, probes) on its own goroutine and reports a
+// wedge if it does not come back.
+func guarded(fn func() *evid.Failure) *evid.Failure {
+	done := make(chan *evid.Failure, 1)
+	go func() { done <- evid.Guard(fn) }()
+	select {
+	case f := <-done:
+		return f
+	case <-time.After(60 * time.Second):
+		buf := make([]byte, 1<<20)
+		n := runtime.Stack(buf, true)
+		return evid.Failf("liveness:wedged", "delivery of a frame (or a liveness probe) did not return within 60 s: a goroutine is blocked inside the stack\n%s", wedgedIn(string(buf[:n])))
+	}
+}
+
+// wedgedIn extracts the goroutines that are blocked inside the repository.
+func wedgedIn(dump string) string {
+	out := ""
+	for _, g := range strings.Split(dump, "\n\n") {
+		if strings.Contains(g, "brewlin/net-protocol") && (strings.Contains(g, "[sync.Mutex.Lock") || strings.Contains(g, "[semacquire") || strings.Contains(g, "[sync.RWMutex")) {
+			lines := strings.Split(g, "\n")
+			if len(lines) > 14 {
+				lines = lines[:14]
+			}
+			out += strings.Join(lines, "\n") + "\n\n"
+			if len(out) > 5000 {
+				break
+			}
+		}
+	}
+	return out
+}
+
+func runMutOnce(c Case) *evid.Failure {
 	evid.Journal("barrage", c)
 	w, err := NewWorld()
 	if err != nil {
